@@ -121,9 +121,10 @@ def trace_validation(rep, wd, tier, seed):
             shown = ' '.join(digits[i:i + 4] for i in range(0, k, 4)) if tid % 2 else '-'.join(digits[i:i + 4] for i in range(0, k, 4))
         ev = []
         if tid % 4 == 2:
-            for weird in ('4111 1111\u00b9 1111 111', '12\u00b2\u00b3', '\u2460\u2461\u2462' + digits[:3], digits[:2] + '\u0663' + digits[2:]):
-                for fn in (card.calculate_check_digit, card.add_check_digit, card.validate_check_digit):
-                    call(fn, weird)       # outcome not judged (not a digit string); the calls after it are
+            weirds = (digits[:2] + '\u0663' + digits[2:], '\u2460\u2461\u2462' + digits[:3], '12\u00b2\u00b3', '4111 1111\u00b9 1111 111')
+            fn = (card.calculate_check_digit, card.add_check_digit, card.validate_check_digit)[(tid // 4) % 3]
+            for weird in weirds[(tid // 12) % 3:]:
+                call(fn, weird)       # outcome not judged (not a digit string); the very next calls are
         kind, out = call(card.calculate_check_digit, shown)
         ev.append(tev('check', shown, out=out if kind == 'ok' else '', kind=kind))
         kind, out = call(card.add_check_digit, digits)
